@@ -28,6 +28,7 @@ OUTSIDE = ["file parsers (csv/json/yaml/ndjson)", "more than 2 blocks / lists lo
 
 _SCRATCH: Dict[str, str] = {}
 DRAWN = [0]
+DRAWN_COMBINE = [0]
 
 
 def _ensure_scratch() -> str:
@@ -61,8 +62,13 @@ def _install() -> None:
     class _CountingItertools:
         @staticmethod
         def product(*iters):
+            iters = [list(x) for x in iters]
+            # stage: the cross-block combination multiplies lists of run dicts, the in-block expansion lists of values
+            combine = bool(iters) and all(len(x) > 0 and isinstance(x[0], dict) for x in iters)
             for combo in _it.product(*iters):
                 DRAWN[0] += 1
+                if combine:
+                    DRAWN_COMBINE[0] += 1
                 yield combo
 
     rs.itertools = _CountingItertools
@@ -210,6 +216,7 @@ def _space_body(a, b, c, d, e, m1, m2, ms, comb, with_src, sel_i, ren_i, max_run
     )
     exp = _ref_space(list(a), list(b), list(c), list(d), list(e), _mode(m1), _mode(m2), _mode(ms), _mode(comb), with_src, sel, ren, max_runs)
     DRAWN[0] = 0
+    DRAWN_COMBINE[0] = 0
     try:
         runs, meta = rs.expand_run_space(spec)
     except PipelineConfigurationError as ex:
@@ -221,8 +228,10 @@ def _space_body(a, b, c, d, e, m1, m2, ms, comb, with_src, sel_i, ren_i, max_run
             return Fail("C08.P1:max-runs-actual", "error reports %r runs, true size %r" % (ex.actual_runs, exp[1]))
         if check_work:
             budget = max_runs + len(a) + len(b) + len(c) + (len(d) * 2 + len(e) if with_src else 0) + 1
+            if DRAWN_COMBINE[0] > max_runs + 1:
+                return Fail("C08.P2:materialised-before-cap:combine", "max-runs error after drawing %d combinations of the cross-block product (cap %d)" % (DRAWN_COMBINE[0], max_runs))
             if DRAWN[0] > budget:
-                return Fail("C08.P2:materialised-before-cap", "max-runs error after drawing %d combinations (cap %d, linear budget %d)" % (DRAWN[0], max_runs, budget))
+                return Fail("C08.P2:materialised-before-cap:block", "max-runs error after drawing %d combinations inside blocks (cap %d, linear budget %d)" % (DRAWN[0], max_runs, budget))
         return True
     if exp[0] == "cfg":
         return Fail("C08.P1:config-error-not-raised", "illegal spec accepted")
